@@ -312,8 +312,8 @@ func (b *builder) value(t int) aval {
 		v1 := b.intTok(0)
 		b.lit(",")
 		k2 := b.key()
-		b.lit(":")
-		v2 := b.intTok(0)
+		b.lit(":2") // the middle value is the literal 2 (keeps the path count of a triple in the thousands)
+		v2 := aval{kind: kNum, num: 2}
 		b.lit(",")
 		b.gap()
 		k3 := b.key()
